@@ -1078,6 +1078,18 @@ pub fn any_esds() -> EsdsBox {
         },
     }
 }
+/// esds with a *concrete* AudioSpecificConfig (object type, frequency index, channel
+/// configuration) and every other field symbolic. The decoder's position after the
+/// AudioSpecificConfig depends on its bits (explicit sampling rate, extended object type), so with
+/// symbolic bits every later descriptor is read at a symbolic position and symbolic execution does
+/// not finish; the full symbolic range is decided in the encode direction (h05enc esds) and in
+/// C14's in-memory harness.
+pub fn any_esds_asc(profile: u8, freq: u8, chan: u8) -> EsdsBox {
+    let mut e = any_esds();
+    e.es_desc.dec_config.dec_specific = DecoderSpecificDescriptor { profile, freq_index: freq, chan_conf: chan };
+    e
+}
+
 pub fn ref_esds_w(v: &EsdsBox, w: &mut RefW) {
     let s = w.begin_full(b"esds", v.version, v.flags);
     let d = &v.es_desc;
